@@ -1,6 +1,6 @@
 #!/bin/bash
 # tools/mutants_all.sh <ID>... : run every sensitivity mutant and seeded break of the given properties
-cd "$(dirname "$0")/.."
+cd "$(dirname "$0")/.."; mkdir -p build
 for id in "$@"; do
   for m in mutants/$id/*.diff; do [ -f "$m" ] && tools/mutant.sh $id $m | tail -1; done
   for s in seeded/$id-*/patch.diff; do [ -f "$s" ] && echo "$(tools/mutant.sh $id $s | tail -1) [$(basename $(dirname $s))]"; done
